@@ -431,6 +431,22 @@ func init() {
 			fmt.Println(err)
 			os.Exit(2)
 		}
+		if os.Getenv("LH_DET_DUMP") == "2" {
+			e := newDetEngine(c)
+			e.run()
+			for fv, why := range e.taintedField {
+				fmt.Println("TAINTED", slotShort(fv), why)
+			}
+			for f, m := range e.appendsTo {
+				for fv := range m {
+					fmt.Println("APPENDS", fnKey(f), slotShort(fv))
+				}
+			}
+			for _, l := range e.loops {
+				fmt.Println("LOOP", l.kind, fnKey(l.f), c.Pos(l.pos))
+			}
+			os.Exit(0)
+		}
 		detDump(c)
 		os.Exit(0)
 	}
